@@ -36,11 +36,11 @@ type fakeRouter struct {
 	regs    map[wamp.ID]string // registration id -> procedure
 	seen    []Rcv              // everything the client sent
 	// invocations we issued: id -> state
-	invs      map[wamp.ID]*fkInv
-	nextInv   wamp.ID
-	delays    map[wamp.ID]time.Duration // request id -> delay we chose for the reply
-	known     []wamp.ID
-	closedBy  string
+	invs     map[wamp.ID]*fkInv
+	nextInv  wamp.ID
+	delays   map[wamp.ID]time.Duration // request id -> delay we chose for the reply
+	known    []wamp.ID
+	closedBy string
 }
 
 type fkInv struct {
